@@ -147,6 +147,27 @@ ADDED3 = {
 for _k, _v in ADDED3.items():
     CLAIMED[_k]['text'] += ' Round 3: ' + _v
 
+
+# rules added in round 4 (DESIGN.md 10.4)
+ADDED4 = {
+ 'C01': 'R8: a reader with a primary source and a fallback never replaces a found value by a possibly absent one; R9: shape of the transaction guard; R10: every 1.x blob write path applies the decode-after-encode guard (known finding).',
+ 'C03': 'S8: a codec that appends trailing bytes accepts on decode every length its encoder produces.',
+ 'C04': 'P3: every element a 2.x decoder appends is built from a fresh object.',
+ 'C05': 'The abstract interpreter treats container-element paths as summary locations (fresh value per load, weak update), which D2 needs for differences of neighbouring elements.',
+ 'C06': 'S4: shape of the transaction guard the setters run under.',
+ 'C07': 'T10: remove_crate removes the whole subtree (two known findings); T11: the 2.x splice triggers exist and agree, guard shape; T12: set_parent refuses a removed parent; T13: every 1.x statement selecting the crates below a crate excludes the self-parent row; T8 also requires the closure rows of a moved subtree to be rewritten (known finding).',
+ 'C08': 'K6: no static initialised at run time; the crate / membership tables are created as the reference dump defines them.',
+ 'C09': 'P3 also requires the duplicate look-up of add_back to compare a complete unique key.',
+ 'C10': 'N1 also rejects statics initialised from a parameter, this or a call.',
+ 'C11': 'W1: the crate handed to the path rewriter comes from the immediate-parent relation; W4 covers every foreign-key relation the library fills; W10: version stamp; W11: decode-after-encode guard on every 1.x blob write path (known finding).',
+ 'C12': 'X4: the layout truth table of C13-Y3 (a created library is recognised on load).',
+ 'C13': 'Y6: the stored version triple is fetched into 64-bit integers.',
+ 'C15': 'U4: the extent rule of C03-S3; U6 also excludes MIN / -1 for signed division; U9 also requires the closure rows of a moved subtree to be rewritten (known finding).',
+ 'C16': 'E6: no member function reached from an observer assigns to or moves from a data member of its own object.',
+}
+for _k, _v in ADDED4.items():
+    CLAIMED[_k]['text'] += ' Round 4: ' + _v
+
 NOT_APPLICABLE = {
  'C19': 'numerical result of integer/floating arithmetic over all inputs (ceiling division, quantisation, minimality, monotonicity): no structural clause beyond the division guard, which C15-U6 covers; a sound decision needs an arithmetic solver or proof (different family)',
  'C20': 'floating-point numerical behaviour of beat-grid extrapolation (bracketing, tempo preservation, idempotence up to rounding); only the iterator arithmetic is shape-visible and is covered by C15-U3',
